@@ -50,6 +50,7 @@ package dcp
 //@ modifies nothing
 
 //@ func (*dcp).close
+//@ params s
 //@ props C05 C13 C19
 //@ requires s != nil && s.config != nil && s.vBucketDiscovery != nil && s.stream != nil && s.bus != nil && s.client != nil && logger.Log != nil
 //@ requires !s.config.HealthCheck.Disabled ==> s.healthCheck != nil
@@ -96,10 +97,12 @@ package dcp
 //@ modifies nothing
 
 //@ func printConfiguration
+//@ params config
 //@ trusted
 //@ modifies nothing
 
 //@ func newDcp
+//@ params config consumer
 //@ props C18
 //@ requires config != nil && logger.Log != nil
 //@ let version = ret(couchbase.HTTPClient.GetVersion, 0, 0)
@@ -144,6 +147,7 @@ package dcp
 //@ modifies nothing
 
 //@ func (*dcp).Start
+//@ params s
 //@ props C15 C02 C11 C13 C19
 //@ requires s != nil && s.config != nil && s.client != nil && s.bus != nil && logger.Log != nil && s.version != nil
 //@ requires s.readyCh != nil && s.stopCh != nil && s.cancelCh != nil && s.apiShutdown != nil
